@@ -323,14 +323,34 @@ Definition parse_tcp (fx : fixes) (s : slice) (f : frame) : res frame :=
   dp <- dst_port p ;;
   Ok (set_ports (set_offT f (f_offP f)) sp dp).
 
-(* IPPROTO_ICMP (echo reply type 0) and IPPROTO_ICMPV6 (echo reply type 129) *)
+(* The condition that guards echoNotify besides the ICMP type (layer_frame.go, after b8d5cb8 / 790e257 / b261543):
+     IPPROTO_ICMP:    frame.offsetIP4 != 0 && len(frame.IP4().Payload()) >= 8 && frame.IP4().Version() == 4
+     IPPROTO_ICMPV6:  frame.offsetIP6 != 0 && len(frame.IP6().Payload()) >= 8 && frame.IP6().Version() == 6
+   with IP4.Payload() = ip4[IHL:TotalLen], IP6.Payload() = ip6[40:40+PayloadLen], Version() = p[0]>>4, evaluated left
+   to right.  The case is only reached after IP4.IsValid / IP6.IsValid, so the header bytes read here lie within the
+   length and the two slice expressions are in range for the repaired validators (IHL <= TotalLen <= len,
+   40+PayloadLen <= len): the condition is a total function of the header bytes, [TotalLen - IHL] and [PayloadLen]
+   being the lengths of the two payload slices.  (The combination "this condition with the ORIGINAL validators",
+   where ip4[IHL:TotalLen] could panic, never existed in /repo: the validators were repaired first.) *)
+Definition echo_gate (s : slice) (f : frame) (id : N) : bool :=
+  if id =? PayloadICMP4 then
+    let o := f_off4 f in
+    let ihl := N.to_nat (N.shiftl (N.land (nth o (arr s) 0) 15) 2) in
+    let tl := N.to_nat (be16 (nth (o + 2) (arr s) 0) (nth (o + 3) (arr s) 0)) in
+    negb (Nat.eqb o 0) && Nat.leb 8 (tl - ihl) && (nth o (arr s) 0 / 16 =? 4)
+  else
+    let o := f_off6 f in
+    let pl := N.to_nat (be16 (nth (o + 4) (arr s) 0) (nth (o + 5) (arr s) 0)) in
+    negb (Nat.eqb o 0) && Nat.leb 8 pl && (nth o (arr s) 0 / 16 =? 6).
+
+(* IPPROTO_ICMP (echo reply type 0, id PayloadICMP4) and IPPROTO_ICMPV6 (echo reply type 129, id PayloadICMP6) *)
 Definition parse_icmp (s : slice) (f : frame) (reply : N) (id : N) : res frame :=
   p <- payload_view s f ;;
   _ <- icmp_is_valid p ;;
   t <- icmp_type p ;;
-  f <- (if t =? reply then
+  f <- (if (t =? reply) && echo_gate s f id then
           _ <- icmp_is_valid p ;;                     (* ICMPEcho.IsValid: same test *)
-          e <- echo_id p ;; Ok (set_echo f (Some e))
+          e <- echo_id p ;; Ok (set_echo f (Some e))  (* echoNotify(echo.EchoID()) *)
         else Ok f) ;;
   Ok (set_id f id).
 
